@@ -314,6 +314,7 @@ class AClass(Opaque):
         super().__init__("class:" + tag)
         self.vm_name = SStr(vm.ctx.fresh_str(f"name_{tag}_{self.oid}"))
         self.is_role = None
+        self.role_param = None       # the T of Role[T] (created on demand)
         self.bases_stream = None
 
     def m_getattr(self, vm, name):
@@ -461,6 +462,7 @@ class DWorld:
         vm.spec.opaque_hooks["binop"] = lambda it, op, a, b: AbstractBag(self, "binop")
         vm.spec.opaque_hooks["collect_stream"] = lambda it, stream, kind: AbstractBag(self, f"{kind}({stream.name})", stream)
         vm.spec.opaque_hooks["havoc_container"] = lambda it, old, name: old if isinstance(old, Opaque) else AbstractBag(self, name)
+        vm.spec.opaque_hooks["havoc_value"] = self.havoc_value
 
     def issubclass(self, it, c, base):
         if isinstance(c, AClass):
@@ -471,6 +473,12 @@ class DWorld:
             return False
         from pyvc.ctx import Unsupported
         raise Unsupported(f"issubclass({c!r}, {base!r})")
+
+    def havoc_value(self, it, old, name):
+        """a local that held a relation class before the loop head may hold any relation class an earlier iteration left there"""
+        if isinstance(old, ClassInfo) and old.name in ("Association", "HasRoleTaker", "Inheritance"):
+            return cls(it, CD, ("Association", "HasRoleTaker")[it.ctx.choice(2, f"havoc-{name}")])
+        return None
 
     def index(self, vm):
         i = SInt(vm.ctx.fresh_int("idx"))
@@ -505,21 +513,35 @@ class DWorld:
 
 
 class AbstractBag(Opaque):
-    """a local container after a loop havoc: any content; append/add are absorbed; iteration yields arbitrary members"""
+    """a container of unknown content (a local after a loop havoc, or list/tuple/set of an abstract stream): reads return
+    arbitrary members; writes are absorbed but LOGGED against the outermost container they reach (`root`), so that a write
+    into something the diagram holds on to is seen"""
 
-    def __init__(self, world, name, source=None):
+    def __init__(self, world, name, source=None, parent=None):
         super().__init__("bag:" + name)
         self.world, self.name, self.source = world, name, source
+        self.root = parent.root if parent is not None else self
+
+    def _mut(self, vm, what):
+        vm.ctx.effect("mutate", (self.root, what))
 
     def m_getattr(self, vm, name):
-        if name in ("append", "add", "extend", "update"):
-            return Builtin("bag." + name, lambda it, fr, a, k: None)
-        if name in ("get", "setdefault"):
-            return Builtin("bag." + name, lambda it, fr, a, k: AbstractBag(self.world, self.name + "." + name))
+        if name in ("append", "add", "extend", "update", "clear", "remove", "discard", "insert"):
+            return Builtin("bag." + name, lambda it, fr, a, k: self._mut(it, name))
+        if name == "get":
+            return Builtin("bag.get", lambda it, fr, a, k: AbstractBag(self.world, self.name + ".get", parent=self)
+                           if it.ctx.choice(2, "key-present?") == 0 or len(a) < 2 else a[1])
+        if name == "setdefault":
+            def setdefault(it, fr, a, k):
+                if it.ctx.choice(2, "key-present?") == 0:
+                    return AbstractBag(self.world, self.name + ".setdefault", parent=self)
+                self._mut(it, "setdefault")
+                return a[1] if len(a) > 1 else None
+            return Builtin("bag.setdefault", setdefault)
         if name == "pop":
-            return Builtin("bag.pop", lambda it, fr, a, k: self.world.index(it))
-        if name in ("values", "items", "keys"):
-            return Builtin("bag." + name, lambda it, fr, a, k: self.m_iter(it))
+            return Builtin("bag.pop", lambda it, fr, a, k: (self._mut(it, "pop"), self.world.member(it, self.name))[1])
+        if name in ("values", "items", "keys", "copy"):
+            return Builtin("bag." + name, lambda it, fr, a, k: AbstractBag(self.world, self.name + "." + name, self.source))
         vm.raise_("AttributeError", name)
 
     def m_iter(self, vm):
@@ -537,9 +559,10 @@ class AbstractBag(Opaque):
     def m_getitem(self, vm, k):
         if "node_map" in self.name:
             return RWX(self.world)
-        return AbstractBag(self.world, self.name + "[]")
+        return AbstractBag(self.world, self.name + "[]", parent=self)
 
     def m_setitem(self, vm, k, v):
+        self._mut(vm, "__setitem__")
         return None
 
 
@@ -714,10 +737,16 @@ def h_association():
                 o.fields["__fields_stream__"] = SymStream(f"fields_{o.oid}", lambda it2, i: D.wrapped_field(it2, o), length=it.ctx.fresh_int("n_fields"))
             return o.fields["__fields_stream__"]
 
+        def role_param_of(it, c):
+            if c.role_param is None:
+                c.role_param = AClass(it, "role-parameter")
+            return c.role_param
+
         def endpoint(it, wf):
             if "__endpoint__" not in wf.fields:
-                wf.fields["__endpoint__"] = AClass(it, "endpoint")
-            state["endpoint"] = wf.fields["__endpoint__"]
+                owner_cls = wf.fields["clazz"].fields["clazz"]
+                # the end point is either the Role parameter of the owning class or some other class
+                wf.fields["__endpoint__"] = role_param_of(it, owner_cls) if it.ctx.choice(2, "end-point-is-the-role-parameter?") == 0 else AClass(it, "endpoint")
             return wf.fields["__endpoint__"]
 
         def is_role_taker(it, wf):
@@ -726,8 +755,7 @@ def h_association():
             return wf.fields["__role_taker__"]
 
         def generic_param(it, a, k):
-            state["param_is_endpoint"] = it.ctx.choice(2, "role-parameter-is-the-end-point?") == 0
-            return (state["endpoint"],) if state["param_is_endpoint"] else (AClass(it, "other-parameter"),)
+            return (role_param_of(it, a[0]),)
         vm.spec.attr_hooks[("WrappedClass", "fields")] = fields_of
         vm.spec.attr_hooks[("WrappedField", "type_endpoint")] = endpoint
         vm.spec.attr_hooks[("WrappedField", "is_role_taker")] = is_role_taker
@@ -751,7 +779,10 @@ def h_association():
             if len(ws) != 1 or ws[0][0] != "add_edge":
                 return False, f"end point is in the diagram: expected one add_edge, got {ws}"
             _, g, u, v, rel = ws[0]
-            role = bool(wf.fields.get("__role_taker__")) and node.fields["clazz"].is_role is True and state.get("param_is_endpoint") is True
+            ncls = node.fields["clazz"]
+            # (whether the class is a Role / the field a role taker is decided when the code asks; never asked = irrelevant)
+            is_role = D.issubclass(vm, ncls, cls(vm, UT, "Role"))
+            role = is_role_taker(vm, wf) and is_role and ep is ncls.role_param
             want_cls = HRT if role else Assoc
             ok = g is D.graph and u is node.fields["index"] and v is mapped.fields["index"] and isinstance(rel, Obj) and rel.cls is want_cls \
                 and rel.fields.get("source") is node and rel.fields.get("target") is mapped and rel.fields.get("field") is wf
@@ -891,6 +922,78 @@ def h_frame(op):
     return Harness(f"frame-{op}", run, spec=Spec(), covers=["returned"], max_paths=3000)
 
 
+def reachable_containers(D):
+    """containers the diagram (or an object it holds) keeps a reference to, e.g. in a cached_property slot"""
+    out, todo, seen = [], [], set()
+    for o in D.owned:
+        todo.extend(o.fields.values())
+    while todo:
+        v = todo.pop()
+        if id(v) in seen:
+            continue
+        seen.add(id(v))
+        if isinstance(v, AbstractBag):
+            out.append(v.root)
+        elif isinstance(v, (PyList, PySet)):
+            out.append(v)
+            todo.extend(v.items)
+        elif isinstance(v, PyDict):
+            out.append(v)
+            todo.extend(v.vals.values())
+        elif isinstance(v, tuple):
+            todo.extend(v)
+    return out
+
+
+FIRST_OPS = ["parent_map", "wrapped_classes", "associations", "inheritance_relations", "get_assoc_keys_by_source", "all_ancestors"]
+
+
+def h_frame_sequence(op1, op2):
+    """op1 then op2: whatever op1 left reachable from the diagram (caches) is not written by op2, and op2 writes nothing into
+    the diagram either."""
+    def run(vm):
+        ctx = vm.ctx
+        D = DWorld(vm)
+        CDc = cls(vm, CD, "ClassDiagram")
+        vm.loader.module(CD).values["RWXNode"] = Builtin("RWXNode", lambda it, fr, a, k: RWX(D))
+        vm.spec.attr_hooks[("WrappedField", "is_role_taker")] = lambda it, wf: it.ctx.choice(2, "is-role-taker?") == 0
+        state = {"since": None, "held": []}
+
+        def bad_writes():
+            if state["since"] is None:
+                return []
+            since = state["since"]
+            held = state["held"]
+            return [w for w in diag_writes(ctx, since) if getattr(w[1], "role", None) == "original"] + \
+                   [x for x in attr_writes(ctx, since) if x[0] in D.owned] + \
+                   [e[1] for e in ctx.effects[since:] if e[0] == "mutate" and any(e[1][0] is h for h in held)]
+        for m in CDc.methods:
+            for k in range(6):
+                vm.spec.loops[(f"ClassDiagram.{m.split('@')[0]}", k)] = LoopSpec(inv=lambda it, fr: z3.BoolVal(not bad_writes()))
+
+        def call(op):
+            mk = READ_ONLY[op]
+            try:
+                if mk is None:
+                    return vm._getattr(D.diagram, op)
+                args, kwargs = mk(vm, D)
+                r = vm.call_method(D.diagram, op, *args, **kwargs)
+                if hasattr(r, "it") or isinstance(r, SymStream):
+                    for _ in zip(range(2), vm.iterate(r)):
+                        pass
+                return r
+            except PyRaise as pr:
+                if not (isinstance(pr.exc.cls, ClassInfo) and pr.exc.cls.name == "ClassIsUnMappedInClassDiagram"):
+                    raise
+        call(op1)
+        state["since"] = len(ctx.effects)
+        state["held"] = reachable_containers(D)
+        call(op2)
+        ctx.check(f"ClassDiagram.{op2}::frame-after-{op1}-writes-nothing-the-diagram-holds", z3.BoolVal(not bad_writes()), detail=repr(bad_writes()))
+        ctx.cover("returned")
+    return Harness(f"frame-{op1}-then-{op2}", run, spec=Spec(), covers=["returned"], max_paths=6000)
+
+
 def h_canary():
     def run(vm):
         W = world(vm)
@@ -902,4 +1005,4 @@ def h_canary():
 
 
 def harnesses():
-    return [h_classification(), h_forward_references(), h_role_taker(), h_add_node(), h_post_init(), h_inheritance(), h_association(), h_fields()] + [h_frame(op) for op in READ_ONLY] + [h_canary()]
+    return [h_classification(), h_forward_references(), h_role_taker(), h_add_node(), h_post_init(), h_inheritance(), h_association(), h_fields()] + [h_frame(op) for op in READ_ONLY] + [h_frame_sequence(a, b) for a in FIRST_OPS for b in READ_ONLY] + [h_canary()]
